@@ -1,17 +1,17 @@
 SPECIFICATION Spec
 CONSTANTS
   MaxPub = 3
-  HistSize = 2
-  MaxFaults = 1
+  HistSize = 3
+  MaxFaults = 0
   MaxSess = 2
   Kinds = {"rec"}
-  Filts = {FALSE, TRUE}
+  Filts = {FALSE}
   Meds = {FALSE}
   AllowClear = FALSE
-  DeltaOpts = {TRUE, FALSE}
+  DeltaOpts = {TRUE}
   PayKinds = {"sim", "unrel"}
   AsCoded = FALSE
   Withhold = FALSE
 VIEW View
-INVARIANTS TypeOK C14 HeldIsLast
+INVARIANTS NotScnFullInChain
 CHECK_DEADLOCK FALSE
